@@ -825,7 +825,7 @@ impl<'a> Run<'a> {
             if cfg.kind.is_adapter() {
                 let n = cfg.limit();
                 let inflight = self.inflight(w);
-                let up_pending = w.up.polled_in_call && w.up.last_answer_in_call == Some(UpAns::Pending);
+                let up_pending = w.up.polled_in_call && matches!(w.up.last_answer_in_call, Some(UpAns::Pending) | Some(UpAns::PendingWake));
                 if n >= 1 && !(inflight >= n || w.up.ended || up_pending) {
                     w.violate(
                         "C09",
